@@ -370,6 +370,23 @@ class Context:
         gt = goal.t
         for (a, b) in getattr(self, 'ring_equalities', []):
             gt = z3.substitute(gt, (a, b))          # equalities proved under the path condition (add_ring_equality)
+        if _ring_shaped(gt) and _term_size(gt, 250) >= 250:
+            # a LARGE identity-shaped goal: a polynomial non-identity expands without cancelling and can keep the normaliser busy for
+            # minutes, while a handful of random points expose it at once - screen first (finding nothing costs a few evaluations)
+            try:
+                from . import numeval
+                nm = numeval.search(self._all_constraints(extra_assumptions), goal.t, trials=4, seed=len(self.pc) + 17)
+                import os
+                if os.environ.get("PYVC_DEBUG"):
+                    print("pre-screen of a large identity goal:", "counterexample" if nm is not None else "nothing found", flush=True)
+                if nm is not None:
+                    STATS["numeric_refutations"] = STATS.get("numeric_refutations", 0) + 1
+                    return "refuted", nm
+            except Exception:
+                import os
+                if os.environ.get("PYVC_DEBUG"):
+                    import traceback
+                    traceback.print_exc()
         if _ring_valid(gt, self.trig_rules()):
             # the goal is a conjunction of polynomial identities that hold by the commutative-ring
             # axioms alone (exact sum-of-monomials normal form); no solver call needed
@@ -467,6 +484,20 @@ class Context:
         s = self._solver(1000)
         s.add(z3.Not(lift(goal).t))
         return s.to_smt2()
+
+
+def _term_size(t, cap):
+    """number of distinct sub-terms, counted up to cap"""
+    seen = set()
+    stack = [t]
+    while stack and len(seen) < cap:
+        x = stack.pop()
+        i = x.get_id()
+        if i in seen:
+            continue
+        seen.add(i)
+        stack.extend(x.children())
+    return len(seen)
 
 
 def _ring_shaped(t):
